@@ -17,7 +17,8 @@ RULE = (
     "finders: case = (mesh of lattice boxes or a round shape, frame); inside, every query sphere (centres at vertices, "
     "edge mid-points, cell centres, off-lattice points; radii between consecutive distinct vertex distances, and the "
     "default radius at a vertex displaced by 0 / 0.4 TOL / 3 TOL) and every plane (through vertex triples, displaced by "
-    "0 / 0.4 TOL / 3 TOL) is compared with a brute-force search; round-shape finder: core/shell x start/end. "
+    "0 / 0.4 TOL / 3 TOL) is compared with a brute-force search; histories [query] - move one vertex (3 TOL | 0.23) - "
+    "queries at the old and the new spot on ONE finder object; round-shape finder: core/shell x start/end. "
     "re-orientation: 6 convex hexahedra x all 48 corner numberings x 4 viewpoint/ceiling pairs. non-trivial = a distinct query / numbering"
 )
 ASSUMPTIONS = ["merge tolerance TOL = 1e-7; query radii/planes never within 10 TOL of a vertex except the explicit 0.4 TOL / 3 TOL cases"]
@@ -31,6 +32,7 @@ def cases(tier, seed):
         for mesh in ("boxes8", "boxes3", "cylinder"):
             out.append({"what": "sphere", "mesh": mesh, "frame": fr})
             out.append({"what": "plane", "mesh": mesh, "frame": fr})
+            out.append({"what": "moved", "mesh": mesh, "frame": fr})
         for shape in ("Cylinder", "Frustum", "Elbow"):
             out.append({"what": "round", "shape": shape, "frame": fr})
     for hexa in range(6):
@@ -89,6 +91,54 @@ def run_sphere(case):
             want = {vi} if expect else set()
             if got != want:
                 violations.append({"clause": "sphere-finder-default-radius", "coords": dict(case, vertex=vi, displacement=disp), "detail": f"found {sorted(got)}, expected {sorted(want)}"})
+    return violations, execs
+
+
+def run_moved(case):
+    """histories on ONE finder object: [query] - move a vertex - query; the answers are those of the current positions"""
+    import classy_blocks as cb
+
+    violations = []
+    execs = 0
+    probe = build_mesh(case["mesh"], case["frame"])
+    n = len(probe.vertices)
+    for vi in sorted({0, n // 3, n - 1}):
+        for di, dist in enumerate((3 * TOL, 0.23)):
+            for pre in ("none", "old-spot", "everything", "plane"):
+                mesh = build_mesh(case["mesh"], case["frame"])
+                finder = cb.GeometricFinder(mesh)
+                V = np.array([v.position for v in mesh.vertices])
+                old = V[vi].copy()
+                nrm = jitter_vec(vi + 5)
+                if pre == "old-spot":
+                    finder.find_in_sphere(old)
+                elif pre == "everything":
+                    finder.find_in_sphere(np.mean(V, axis=0), 100.0)
+                elif pre == "plane":
+                    finder.find_on_plane(old, nrm)
+                new = old + dist * jitter_vec(vi + 3) / np.linalg.norm(jitter_vec(vi + 3))
+                mesh.vertices[vi].move_to(new)
+                V[vi] = new
+                coords = dict(case, vertex=vi, distance=dist, pre=pre)
+                queries = [("sphere", old, None), ("sphere", new, None), ("sphere", old, dist / 2), ("sphere", new, dist / 2), ("sphere", np.mean(V, axis=0), 100.0), ("plane", new, nrm), ("plane", old, nrm)]
+                for kind, c, r in queries:
+                    execs += 1
+                    if kind == "sphere":
+                        rr = TOL if r is None else r
+                        dd = np.linalg.norm(V - c, axis=1)
+                        if np.any(np.abs(dd - rr) < 0.2 * TOL):
+                            continue
+                        got = {v.index for v in (finder.find_in_sphere(c) if r is None else finder.find_in_sphere(c, r))}
+                        want = {i for i in range(n) if dd[i] < rr}
+                    else:
+                        nu = nrm / np.linalg.norm(nrm)
+                        dd = np.abs((V - c) @ nu)
+                        if np.any((dd > 0.5 * TOL) & (dd < 2 * TOL)):
+                            continue
+                        got = {v.index for v in finder.find_on_plane(c, nrm)}
+                        want = {i for i in range(n) if dd[i] < TOL}
+                    if got != want:
+                        violations.append({"clause": "finder-after-move", "coords": dict(coords, query=kind, at="old" if c is old else "new" if c is new else "all", radius=r), "detail": f"found {sorted(got)}, brute force on the current positions {sorted(want)}"})
     return violations, execs
 
 
@@ -269,6 +319,6 @@ def run_reorient(case):
 
 
 def run_case(case):
-    fn = {"sphere": run_sphere, "plane": run_plane, "round": run_round, "reorient": run_reorient}[case["what"]]
+    fn = {"sphere": run_sphere, "plane": run_plane, "moved": run_moved, "round": run_round, "reorient": run_reorient}[case["what"]]
     violations, execs = fn(case)
     return {"violations": violations, "outcome": case["what"], "execs": execs, "nontrivial_n": execs, "states": 1, "transitions": execs}
